@@ -177,7 +177,10 @@ Definition outer_opts_of (m : msg) : list (Z * list Z) :=
       else match observe_value (opts m) with Some v => [(OPT_OBSERVE, to_minimum_bytes v)] | None => [] end).
 Definition split_message (m : msg) (r : option rid) : M (msg * list Z) :=
   if is_request (code m) && match get_opt OPT_PROXY_URI (opts m) with Some _ => true | None => false end
-  then Raise NotImplementedError                        (* Proxy-Uri splitting (set_request_uri) is not modelled *)
+  then Raise IncompleteUrlError
+       (* oscore.py:1150-1158, 1178-1179 as the code is: for a Proxy-Uri with a CoAP scheme, `inner_message.remote.uri_base` is None
+          (UndecidedRemote does not define it) and `outer_message.set_request_uri(None)` raises IncompleteUrlError — open finding
+          C11:protect-exception:IncompleteUrlError:proxy-uri.  (Non-CoAP schemes: ValueError, malformed URIs: MalformedUrlError; not modelled.) *)
   else
   oc <- outer_code_of m r ;;
   pt <- plaintext_of (code m) (inner_opts m) (payload m) ;;
